@@ -16,6 +16,7 @@ PROP = {
         "quick": [B("stable"), B("nightly", 0.25, False)],
         "thorough": [B("stable"), B("fma", 0.5), B("nightly", 0.5, False)],
     },
+    "volume": {"quick": 3},
     "technique": "property-based testing: constructed pairs of directions / unit quaternions at prescribed angles (nearly equal, nearly opposite, exactly opposite, at every documented "
                  "threshold) and steps relative to the remaining distance / angle, judged against f64 (f32 types) / double-double (f64 types) geometric references with "
                  "conditioning-derived tolerances, in the SSE2 (own polynomial sine in Quat::slerp), scalar-math, libm, nightly core-simd and (+fma,+avx2) builds",
